@@ -1,6 +1,6 @@
 SPEC_PART = dict(
     props_file="C17_bloom",
-    legs=[dict(family="bloom", focus="extremes", oracles=["no_panic"], profiles=["debug", "release"], n_quick=100, n_thorough=1200,
+    legs=[dict(family="bloom", focus="extremes", oracles=["no_panic"], profiles=["debug", "release"], n_quick=100, n_thorough=500,
                panic_is_violation=True),
           dict(family="bloom", focus="extremes-huge", oracles=["no_panic"], profiles=["debug", "release"], n_quick=8, n_thorough=60,
                panic_is_violation=True)],
@@ -12,5 +12,5 @@ SPEC_PART = dict(
            "well-formed filter: insert / contains_and_insert / reset total, invert cannot underflow, union / intersect of compatible "
            "filters succeed, serialize+deserialize succeeds, num_bits_set + 1 < 2^64, capacity > 0, every bit index addresses a word "
            "(c17_bloom_ops_safe); tie: valid histories only, at the extremes (1 bit .. 2^20 bits, word boundaries, 1 .. 32767 hash "
-           "functions, seeds 0 and 2^64-1, extreme i64 items, builder limits, with_accuracy), debug + release, any panic is a violation",
+           "functions, seeds 0 and 2^64-1, extreme i64 items, builder limits; with_accuracy at each documented extreme in every run: fpp = 1.0 exactly, the largest double below 1.0, 0.5, 1e-300, f64::MIN_POSITIVE with max_items 1, 2 and huge, every filter it builds then exercised), debug + release, any panic is a violation",
 )
